@@ -94,6 +94,10 @@ FanTop == S("fan_top", << Sr("kid_c", <<0, 0>>, FALSE, 0), Ar("kid_a", <<0, 20>>
 Fanout == { << FanTop, Kid("kid_a", 1), Kid("kid_b", 2), Kid("kid_c", 3), Kid("kid_d", 4) >>,
             << Kid("kid_d", 4), Kid("kid_b", 2), FanTop, Kid("kid_a", 1), Kid("kid_c", 3) >>,
             << Kid("kid_a", 1), Kid("kid_b", 2), Kid("kid_c", 3), Kid("kid_d", 4), FanTop >> }
+\* names far longer than the format's traditional 32 characters, sharing a long common prefix (names are content)
+LongP == "structure_with_a_long_hierarchical_name_of_more_than_thirtytwo_characters_"
+LongNames == { << Kid(LongP \o "a", 1), Kid(LongP \o "b", 2),
+                  S(LongP \o "top", << Sr(LongP \o "a", <<0, 0>>, FALSE, 0), Sr(LongP \o "b", <<30, 0>>, TRUE, 90) >>) >> }
 \* Deep random hierarchies (NDeep of them, TLC's RandomElement, reproducible under -seed): four levels, every level with
 \* its own shapes, a reference and an array of the level below in random orientations at random places, structures
 \* listed in a random order.  The expected flattened bags are computed by Flatten like for every other library.
@@ -109,7 +113,7 @@ Deep(i) ==
       l3 == S("lvl3", << Sr("lvl2", a3, o3[1], o3[2]), Sr("leaf", a1, o4[1], o4[2]), Pa(7, 0, 2, << <<0, 0>>, <<0, 6>>, <<4, 6>> >>) >>)
   IN Permute(<< l3, l2, l1, Leaf >>, RandomElement(Perms4))
 DeepLibs == { Deep(i) : i \in 1..NDeep }
-Libs == Hier \cup RectOrders \cup NonRect \cup Fanout \cup DeepLibs \cup Crowded \cup Arrays \cup Labels \cup Mal \cup Mag1 \cup Lenient
+Libs == Hier \cup RectOrders \cup NonRect \cup Fanout \cup LongNames \cup DeepLibs \cup Crowded \cup Arrays \cup Labels \cup Mal \cup Mag1 \cup Lenient
 Init == c \in Libs
 Next == UNCHANGED c
 Spec == Init /\ [][Next]_c
